@@ -349,7 +349,11 @@ def sem_text(e):
 
 
 def nsp(s):
-    return re.sub(r'\s+', '', s)
+    """the text without white space - except inside string / char literals, where blanks are part of the value"""
+    out = []
+    for i, part in enumerate(re.split(r'("(?:[^"\\\\]|\\\\.)*")', s)):
+        out.append(part if i % 2 else re.sub(r'\s+', '', part))
+    return ''.join(out)
 
 
 def subst_text(expr, tilde, at):
@@ -553,6 +557,24 @@ def expected_struct_meaning(item, kind, fallible, cp, hint):
             d['other.' + nm] = subst_text(e, '<no-tilde>', src)
         return ('assign', d)
     return ('tuple', vals)
+
+
+def existing_assignments(imp, fallible):
+    """[(place, value)] of an into_existing body, in statement order (None when the body has another form)"""
+    blk = fn_block(imp)
+    if blk is None:
+        return None
+    out = []
+    for st in blk[1:]:
+        if st[0] == 'let':
+            continue
+        if st[0] == 'stmt' and isinstance(st[1], list) and st[1][0] == 'assign':
+            out.append((sval(st[1][1]), sem_text(st[1][2])))
+        elif st[0] == 'tail' and sem_text(st[1]) == 'Ok(())' and fallible:
+            continue
+        else:
+            return None
+    return out
 
 
 def actual_struct_meaning(imp, fallible, existing, with_lets=False):
